@@ -347,6 +347,66 @@ class Closure(PyObj):
         return "<closure %s>" % self.qualname
 
 
+class ClassModel(PyObj):
+    """a repo class: methods are the real FunctionDefs of the ClassDef"""
+
+    def __init__(self, relpath, name, env):
+        self.relpath, self.name, self.env = relpath, name, env
+        node = find_function(relpath, name)
+        if not isinstance(node, ast.ClassDef):
+            raise Undecided("%s is not a class" % name)
+        self.node = node
+        self.methods = {}
+        self.kinds = {}
+        for st in node.body:
+            if isinstance(st, ast.FunctionDef):
+                kind = 'method'
+                for d in st.decorator_list:
+                    dn = d.id if isinstance(d, ast.Name) else getattr(d, 'attr', '')
+                    if dn in ('staticmethod', 'classmethod'):
+                        kind = dn
+                self.methods[st.name] = Closure(st, env, relpath, "%s.%s" % (name, st.name))
+                self.kinds[st.name] = kind
+
+    def lookup(self, inst, name):
+        if name not in self.methods:
+            return None
+        clo, kind = self.methods[name], self.kinds[name]
+        if kind == 'staticmethod':
+            return clo
+        if kind == 'classmethod':
+            return BoundMethod(self, clo)
+        return BoundMethod(inst, clo)
+
+    def getattr_(self, ctx, name):
+        m = self.lookup(None, name)
+        if m is None:
+            raise PyRaise(ExcValue('AttributeError', (name,)))
+        if self.kinds[name] == 'method':
+            return self.methods[name]
+        return m
+
+    def call_(self, ctx, args, kwargs):
+        inst = Instance(self)
+        if '__init__' in self.methods:
+            self.methods['__init__'].call_(ctx, [inst] + list(args), kwargs)
+        return inst
+
+
+class Instance(Obj):
+    def __init__(self, cls, **fields):
+        Obj.__init__(self, cls.name, **fields)
+        self.klass = cls
+
+    def getattr_(self, ctx, name):
+        if name in self.fields:
+            return self.fields[name]
+        m = self.klass.lookup(self, name)
+        if m is not None:
+            return m
+        return Obj.getattr_(self, ctx, name)
+
+
 class BoundMethod(PyObj):
     def __init__(self, selfv, closure):
         self.selfv = selfv
@@ -436,6 +496,9 @@ class SymDict(PyObj):
     def havoc_(self, ctx):
         for k in list(self.vals):
             self.vals[k] = ctx.opaque("%s[%r] after unknown call" % (self.name, k))
+
+    def fingerprint_(self):
+        return ('symdict', len(self.history)), []
 
 
 # ---------------------------------------------------------------------------
@@ -552,6 +615,7 @@ class Ctx:
         self._axkeys = set()
         self.max_paths = 4000
         self.ghost = {}
+        self.ufacts = []       # closures term -> formula: universally valid facts, instantiated by oblige(at=...)
 
     # ---- path enumeration ------------------------------------------------
     def explore(self, fn):
@@ -563,6 +627,7 @@ class Ctx:
             self.pc = []
             self.counter = {}
             self.ghost = {}
+            self.ufacts = []
             self.path_id = n
             n += 1
             if n > self.max_paths:
@@ -716,7 +781,7 @@ class Ctx:
         self.pc.append(e)
 
     def oblige(self, kind, label, goal, expect="valid", meta=None, trig=None, focus=None, timeout_ms=None,
-               nohyps=False, ring=False):
+               nohyps=False, ring=False, at=None):
         """record obligation `<target>.<kind>.<label>`: hyps => goal
 
         trig : expand sin/cos applications (pyvc/trig.py) in hypotheses and goal
@@ -730,6 +795,13 @@ class Ctx:
         else:
             g = Sym.lift(goal)
         hyps = [] if nohyps else list(self.axioms) + list(self.pc)
+        if at and not nohyps:
+            for fact in self.ufacts:
+                for t in at:
+                    inst = fact(t)
+                    if inst is True:
+                        continue
+                    hyps.append(Sym.lift(inst))
         if focus:
             hyps = focus_hyps(hyps, g, focus)
         if (self.trig if trig is None else trig):
@@ -761,6 +833,50 @@ class Ctx:
 # Interpreter
 # ---------------------------------------------------------------------------
 
+def heap_fingerprint(env, extra_roots=()):
+    """identity/version summary of every mutable object reachable from the local variables:
+    used to check that a cut loop body writes only what its contract declares"""
+    out = {}
+    keep = []
+    stack = list(env.vars.values()) + list(extra_roots)
+    while stack:
+        o = stack.pop()
+        i = id(o)
+        if i in out:
+            continue
+        if isinstance(o, dict):
+            out[i] = ('dict', tuple(sorted((repr(k), id(v)) for k, v in o.items())))
+            stack.extend(o.values())
+        elif isinstance(o, list):
+            out[i] = ('list', tuple(id(v) for v in o))
+            stack.extend(o)
+        elif isinstance(o, tuple):
+            stack.extend(o)
+            continue
+        elif isinstance(o, Obj):
+            out[i] = ('obj', tuple(sorted((k, id(v)) for k, v in o.fields.items())), o.havocked)
+            stack.extend(o.fields.values())
+        elif isinstance(o, PyObj) and hasattr(o, 'fingerprint_'):
+            fp, children = o.fingerprint_()
+            out[i] = fp
+            stack.extend(children)
+        else:
+            continue
+        keep.append(o)
+    return out, keep
+
+
+def frame_violations(before, after, allowed):
+    ok_ids = set(id(o) for o in allowed)
+    bad = []
+    for i, fp in before[0].items():
+        if i in ok_ids:
+            continue
+        if i in after[0] and after[0][i] != fp:
+            bad.append(i)
+    return bad
+
+
 class LoopSpec:
     """Contract of a loop.
 
@@ -772,7 +888,8 @@ class LoopSpec:
        `types[name]` in {'int','real','bool', callable}).
     """
 
-    def __init__(self, inv, types=None, havoc=None, decreases=None, label=None, facts=None):
+    def __init__(self, inv, types=None, havoc=None, decreases=None, label=None, facts=None, modifies=None):
+        self.modifies = modifies    # modifies(ctx, env) -> heap objects the body may write (frame obligation)
         self.inv = inv
         self.facts = facts      # facts(ctx, env, k) -> ghost-definition instances assumed at iteration k / exit
         self.types = types or {}
@@ -1134,6 +1251,7 @@ class Interp:
             for lab, f in spec.inv(ctx, env, k):
                 ctx.assume(f)
             self.assign(st.target, rng.item(k), env)
+            fp0 = heap_fingerprint(env)
             try:
                 self.exec_block(st.body, env)
             except _Continue:
@@ -1141,6 +1259,9 @@ class Interp:
             except _Break:
                 # leaves the loop from iteration k: continue after the loop
                 return
+            allowed = spec.modifies(ctx, env) if spec.modifies else []
+            ctx.oblige("frame", "%s.body_writes_only_declared_objects" % label,
+                       not frame_violations(fp0, heap_fingerprint(env), allowed))
             for lab, f in spec.inv(ctx, env, k + 1):
                 ctx.oblige("inv-preserve", "%s.%s" % (label, lab), f)
             raise PathEnd()
@@ -1868,6 +1989,9 @@ class SymList(PyObj):
 
     def len_(self, ctx):
         return self.length
+
+    def fingerprint_(self):
+        return ('symlist', len(self.writes)), []
 
     def getitem_(self, ctx, k):
         if isinstance(k, slice):
